@@ -38,7 +38,7 @@ func init() {
 			"(c) x OP y for 23 infix operators over pool^2, prefix operators, x[y], x[y:z], x[y:z:w] over reduced pools through real syntax; " +
 			"(d) 45 producers of unusual values (bodies with return/raise/yield/defer in function, method, iterator, chain, try, eval contexts; every prototype; `_`) x 22 consumer slots; " +
 			"oracle: no panic escapes Parse/Eval/the built-in, no worker death, and the outcome (syntax error, PanErr or a value) survives Inspect, Repr, the prototype walk and S; " +
-			"fuel/depth exhaustion and allocation-size panics are discarded (the property's proviso); non-trivial = case whose outcome is not a plain arity/type error; distinct = distinct (property, argument tuple) / source; round 7: pinned obj/map keys hold every producer and pool value; (g) every sequence of <=3 (thorough 4) loading statements (invite!, import, read, nested invite) is run by the real binary as -e one-liner and as script file next to two helper modules; (h) every range of fewer than 5 elements whose bounds lie within 9 of the int64 limits is consumed in four ways (running out of fuel = the interpreter does not end) and its elements compared with math/big; (i) objects whose _iter result has no `next` at all x 18 consumers must end.",
+			"fuel/depth exhaustion and allocation-size panics are discarded (the property's proviso); non-trivial = case whose outcome is not a plain arity/type error; distinct = distinct (property, argument tuple) / source; round 7: pinned obj/map keys hold every producer and pool value; (g) every sequence of <=3 (thorough 4) loading statements (invite!, import, read, nested invite) is run by the real binary as -e one-liner and as script file next to two helper modules; (h) every range of fewer than 5 elements whose bounds lie within 9 of the int64 limits is consumed in four ways (running out of fuel = the interpreter does not end) and its elements compared with math/big; (i) objects whose _iter result has no `next` at all x 18 consumers must end.; round 8: names of 13 length classes (1..1024) reach evalEnv, eval, items, keyword variables, map expansion, which, JSON keys, try steps and symbol functions.",
 		Assumptions: []string{
 			"non-terminating or unboundedly recursive cases are cut by the fuel/depth guard and discarded (Wrappable.{...} recursion included)",
 			"panics whose message says the requested allocation is out of range (makeslice / Repeat / growslice) are the memory proviso, not crashes, provided the case contains a number of >= 7 digits, an exponent literal or an infinity (otherwise the size was miscomputed and the panic is a crash)",
